@@ -184,6 +184,16 @@ def execute(w, seed, strategy="random", forced=None, strict=False):
                 raise res["exc"]
             if vio is None and res["alive"]:
                 vio = Violation("THREADS_ALIVE", "threads alive after the failing call", res["alive"])
+        if vio is None and f is not None and hit and f["kind"] in ("gap", "overlap"):
+            # a target whose chunks leave a gap / overlap is not left in storage as valid data - not even when a
+            # rechunking saver would have glued the pieces together so that the rows happen to be complete
+            bad_types = [f.get("output") or f["node"]]
+            for d in bad_types:
+                if d in res.get("stored_state", {}):
+                    state, val = res["stored_state"][d]
+                    vio = Violation("STORED_INVALID", f"a target whose chunks {'overlap' if f['kind'] == 'overlap' else 'leave a gap'} "
+                                                      f"was left in storage as valid data", f"{d}: {state}")
+                    break
         if vio is None:
             for d, (state, val) in sorted(res.get("stored_state", {}).items()):
                 if state == "loaded":
